@@ -510,6 +510,8 @@ def forward_must(g, init, transfer, edge=None, follow=None):
             if follow is not None and not follow(n, m, label):
                 continue
             v = edge(n, label, m, out) if edge else out
+            if v is INFEASIBLE:
+                continue
             cur = IN[m]
             if cur is None:
                 IN[m] = v
@@ -623,6 +625,7 @@ class _Universe(frozenset):
 
 
 UNIVERSE = _Universe()
+INFEASIBLE = object()
 
 
 class Facts:
@@ -706,6 +709,12 @@ class Facts:
             if t and t.get("c") is not None:
                 atoms = cond_atoms(self.fn, t["c"], label == "T")
                 if atoms:
+                    # light path sensitivity: an edge whose condition contradicts a known fact is infeasible
+                    for a in atoms:
+                        if a[0] == "cmp":
+                            for b in s:
+                                if b[0] == "cmp" and b[1] == a[1] and entails(b[2], b[3], NEG[a[2]], a[3]):
+                                    return INFEASIBLE
                     if self.edge_gen:
                         self.edge_state = s
                         atoms = list(atoms) + list(self.edge_gen(node, label, atoms) or ())
@@ -747,6 +756,53 @@ def world_follow(fn, varkey, w):
             return w not in cases
         return True
     return follow
+
+
+def nullary_conditions(g):
+    """keys of pure parameterless calls that decide branches (ep_curve_is_endom(), ...)"""
+    fn = g.fn
+    out = set()
+    for n in g.nodes:
+        if n.kind != "br":
+            continue
+        t = n.info.get("term")
+        if not t or t.get("c") is None:
+            continue
+        for truth in (True,):
+            for a in cond_atoms(fn, t["c"], truth):
+                if a[0] == "cmp" and isinstance(a[1], tuple) and a[1][0] == "c" and a[1][2] == () and isinstance(a[1][1], str):
+                    out.add(a[1])
+    return sorted(out)
+
+
+def condition_worlds(g, limit=3):
+    """edge filters, one per assignment of zero / non-zero to the parameterless calls deciding branches: the value of
+    such a call is the same at every test within one invocation (configuration queries)"""
+    keys = nullary_conditions(g)[:limit]
+    if not keys:
+        return [(None, {})]
+    fn = g.fn
+    worlds = []
+    for mask in range(1 << len(keys)):
+        assign = {k: bool(mask >> i & 1) for i, k in enumerate(keys)}
+
+        def follow(n, m, label, assign=assign):
+            if n.kind != "br" or label not in ("T", "F"):
+                return True
+            t = n.info.get("term")
+            if not t or t.get("c") is None:
+                return True
+            for a in cond_atoms(fn, t["c"], label == "T"):
+                if a[0] == "cmp" and a[1] in assign:
+                    nz = assign[a[1]]
+                    # atom says: call op const
+                    if nz and entails(a[2], a[3], "==", 0):
+                        return False
+                    if not nz and entails(a[2], a[3], "!=", 0):
+                        return False
+            return True
+        worlds.append((follow, assign))
+    return worlds
 
 
 def reachable_from(g, starts, follow=lambda n, m, label: True):
